@@ -9,10 +9,17 @@ import json, random
 import common, pool, specs, gens, ftdiff, semcheck
 
 
-def check_records(ctx, recs, classify=None, need_reference=True):
+def check_records(ctx, recs, classify=None, need_reference=True, reject_is_violation=False):
     for r in recs:
         if not r["ok"]:
-            ctx.stat(("rejected_" if r["err_kind"] == "ValueError" else "compile_crash_") + str(r["err_kind"])); continue
+            ctx.stat(("rejected_" if r["err_kind"] == "ValueError" else "compile_crash_") + str(r["err_kind"]))
+            if reject_is_violation:
+                # the generator class is legal by construction (the unchanged compiler accepts all of it): no program = no result
+                ctx.ob(False)
+                ctx.violation(dict(kind="legal-specification-rejected", yaml=r["yaml"], yaml_text=specs.dump_yaml(r["yaml"]), mode=r["mode"], hashseed=r["hashseed"],
+                                   error="%s: %s" % (r["err_kind"], r.get("err_msg")),
+                                   reason="a shape-partitioned specification of the legal class yields no program (%s: %s)" % (r["err_kind"], str(r.get("err_msg"))[:200])), True)
+            continue
         case = r["case"]
         ctx.case([r["text"]], nontrivial="split" in r["text"] or "flatten" in r["text"] or "project" in r["text"] or "for " in r["text"])
         for t in set(case["tags"]):
@@ -188,7 +195,7 @@ def run(ctx):
                               dict(gen="g2", count=30 * k, modes=["plain"], nexec=n, reference=True, opts={"order": "levelsorted"}),
                               dict(gen="g2", count=20 * k, modes=["plain"], nexec=n, reference=True, opts={"order": "none"}),
                               dict(gen="g2deep", count=6 * k, modes=["plain"], nexec=n, reference=True)])
-    check_records(ctx, recs)
+    check_records(ctx, recs, reject_is_violation=True)
     check_model(ctx, recs)
 
 
